@@ -628,12 +628,11 @@ example : (drun (sS true, none) evsV).1.doVerify = true ∧ (drun (sS true, none
 
 /-- the window of finding C08-F5 in the model: inside the `stop` of `StopAfterMetadata` the metadata is known,
 no allocator runs and nothing is loaded — the status function says `Downloading` (so `Life` does not hold
-*inside* the handler and `startDls_noop_unloaded` does not apply there); the model's `closePeer` then records
-permissions in `mayStart`, which `stop` clears (`stop_after_metadata_stops_handler`: `mayStart = []`, `dls = []`).
-The model has no piece picker to dereference; rain's guard is `if t.piecePicker == nil { return }`. -/
+*inside* the handler).  `St.startDls` carries rain's guard `if t.piecePicker == nil { return }` as `s.loaded`
+(`startDls_noop_of_unloaded`, any state): `closePeer` there grants no permission and starts nothing. -/
 example : ({ (drun (sS true, none) evsS).1 with idls := [], info := true, metaDone := true } : St).status = .downloading ∧
     ({ (drun (sS true, none) evsS).1 with idls := [], info := true, metaDone := true } : St).loaded = false ∧
-    (({ (drun (sS true, none) evsS).1 with idls := [], info := true, metaDone := true } : St).closePeer 1).mayStart = [2] ∧
+    (({ (drun (sS true, none) evsS).1 with idls := [], info := true, metaDone := true } : St).closePeer 1).mayStart = [] ∧
     (({ (drun (sS true, none) evsS).1 with idls := [], info := true, metaDone := true } : St).closePeer 1).dls = [] := by
   decide
 end Witnesses
